@@ -229,7 +229,7 @@ PROPS["C15"] = dict(
     "wire allows without ever reading; a probe handler logs start/end in manual-clock time: starts in every window <= burst + T/r + 1, concurrently running handlers <= INFLIGHT (and the "
     "limit is actually reached). (c, node-limits) A real node (testonly::Instance: production Network runner, gossip run_stream and consensus run_inbound_stream with the per-connection rpc::Service glue and "
     "the configured rates; every RPC kind gets its own burst/refresh pair) runs on a manual clock and is flooded over real sockets by an authenticated raw gossip peer (get_block, push_block_store_state, "
-    "push_validator_addrs) and by a committee member on the validator network (consensus messages), 25-60 concurrent calls per kind with no client-side rate. Time only moves when the harness moves it, so the "
+    "push_validator_addrs) and by a committee member on the validator network (consensus messages and pings, whose rate is the fixed rpc::ping::RATE), 25-60 concurrent calls per kind with no client-side rate. Time only moves when the harness moves it, so the "
     "statement's bound is decided exactly: after a total advance A at most burst + A/refresh + 1 requests of a kind may have been served on that connection (gossip kinds counted by their responses, consensus "
     "requests where the node hands them to the consensus component, whose acknowledgements the harness withholds: at most INFLIGHT may be in flight).",
     assumptions=["held on the generated operation sequences only", "the multi-thread variant stamps grants after the fact and allows 5 ms of stamping delay", "node-limits: real sockets; a case that hits its 120 s wall-clock watchdog is inconclusive, counts are upper bounds that no scheduling delay can falsify"],
@@ -239,7 +239,7 @@ PROPS["C15"] = dict(
         dict(name="rpc", flavour="release", crate="net"),
         dict(name="node-limits", flavour="release", args={"mode": "node-limits"}, crate="net"),
     ],
-    floors={"quick": {"node_limit_cases": 60, "node_phases_completed": 50, "node_limit_reached_get_block": 30, "node_limit_reached_push_block_store_state": 30, "node_limit_reached_push_validator_addrs": 30, "node_limit_reached_consensus": 30, "node_consensus_inflight_limit_reached": 20, "windows_checked": 100000, "cancelled_waits_observed": 5000, "differential_cancel_cases": 2000, "fifo_sequences_checked": 2000, "oversized_requests_checked": 1000, "infinite_rate_requests_checked": 1000, "handler_invocations": 3000, "rpc_windows_checked": 50000, "rpc_raw_client_cases": 100, "max_concurrent_handlers": 3},
+    floors={"quick": {"node_limit_cases": 60, "node_phases_completed": 50, "node_limit_reached_get_block": 30, "node_limit_reached_push_block_store_state": 30, "node_limit_reached_push_validator_addrs": 30, "node_limit_reached_consensus": 30, "node_limit_reached_ping": 30, "node_consensus_inflight_limit_reached": 20, "windows_checked": 100000, "cancelled_waits_observed": 5000, "differential_cancel_cases": 2000, "fifo_sequences_checked": 2000, "oversized_requests_checked": 1000, "infinite_rate_requests_checked": 1000, "handler_invocations": 3000, "rpc_windows_checked": 50000, "rpc_raw_client_cases": 100, "max_concurrent_handlers": 3},
             "thorough": {"windows_checked": 1000000}},
 )
 
